@@ -68,7 +68,7 @@ func (p kParams) install() {
 	constants.SentinelLockTimeWindow, constants.SentinelRevokeTimeWindow = p.sentinelLock, p.sentinelRevoke
 }
 
-var modelledContracts = []types.Address{types.PlasmaContract, types.StakeContract, types.HtlcContract, types.PillarContract, types.SentinelContract}
+var modelledContracts = []types.Address{types.PlasmaContract, types.StakeContract, types.HtlcContract, types.PillarContract, types.SentinelContract, types.LiquidityContract}
 
 func cname(a types.Address) string { return embeddedNames[a][2:] }
 
@@ -86,6 +86,9 @@ type contractRun struct {
 	htlcs     []*definition.HtlcInfo
 	pillars   []*definition.PillarInfo
 	sentinels []*definition.SentinelInfo
+	lstakes   []*definition.LiquidityStakeEntry
+	lastTuples string
+	burned    bool // the spork address burned ZNN of the liquidity contract while ZNN stakes were open
 	deadIds   []types.Hash // ids of entries that were released (for repeated attempts)
 	preimages map[types.Hash][]byte
 	proxy     map[types.Address]bool // htlc: explicit proxy-unlock settings seen in confirmed receives
@@ -96,7 +99,11 @@ type contractRun struct {
 
 func (r *contractRun) fail(format string, a ...interface{}) {
 	r.failed = true
-	r.c.Fail("contract run=%d h=%d: %s", r.id, r.n.Height(), fmt.Sprintf(format, a...))
+	tag := ""
+	if r.burned {
+		tag = "after-BurnZnn-of-staked-ZNN: "
+	}
+	r.c.Fail("contract run=%d h=%d: %s%s", r.id, r.n.Height(), tag, fmt.Sprintf(format, a...))
 }
 
 func (r *contractRun) storage(a types.Address) db.DB {
@@ -195,6 +202,22 @@ func decodeCall(contract types.Address, data []byte) *decoded {
 		case definition.RevokeMethodName, definition.DelegateMethodName:
 			if ca.abi.UnpackMethod(&d.name, m.Name, data) == nil {
 				d.args, d.modelled = []string{d.name, fmt.Sprint(pillarNameOk(d.name))}, true
+			}
+		}
+	case types.LiquidityContract:
+		switch m.Name {
+		case definition.LiquidityStakeMethodName:
+			if ca.abi.UnpackMethod(&d.dur, m.Name, data) == nil {
+				d.args, d.modelled = []string{fmt.Sprint(d.dur)}, true
+			}
+		case definition.CancelLiquidityStakeMethodName:
+			if ca.abi.UnpackMethod(&d.id, m.Name, data) == nil {
+				d.args, d.modelled = []string{h8z(d.id)}, true
+			}
+		case definition.BurnZnnMethodName:
+			p := new(definition.BurnParam)
+			if ca.abi.UnpackMethod(p, m.Name, data) == nil {
+				d.args, d.modelled = []string{amt(p.BurnAmount)}, true
 			}
 		}
 	case types.SentinelContract:
@@ -558,6 +581,45 @@ func (r *contractRun) monitorReceive(b, send *nom.AccountBlock, d *decoded, stat
 		case definition.AllowHtlcProxyUnlockMethodName:
 			if ok {
 				r.proxy[send.Address] = true
+			}
+		}
+	case types.LiquidityContract:
+		switch d.method {
+		case definition.LiquidityStakeMethodName:
+			if ok {
+				key := lockKey(b.Address, "lstake", addrName(send.Address), h8z(send.Hash))
+				r.locks[key] = &lockRec{contract: b.Address, kind: "lstake", key: key, entitled: send.Address, tok: send.TokenStandard,
+					amount: new(big.Int).Set(send.Amount), matureT: ackT + d.dur}
+				if len(b.DescendantBlocks) != 0 {
+					r.fail("release: LiquidityStake produced %d descendant blocks", len(b.DescendantBlocks))
+				}
+			}
+		case definition.CancelLiquidityStakeMethodName:
+			key := lockKey(b.Address, "lstake", addrName(send.Address), h8z(d.id))
+			lk := r.locks[key]
+			if ok {
+				if lk != nil && lk.paidAt != 0 {
+					if len(b.DescendantBlocks) != 1 || b.DescendantBlocks[0].Amount.Sign() != 0 {
+						r.fail("release: CancelLiquidityStake paid twice: stake %s was released at momentum %d and a repeated cancel at %d paid again", key, lk.paidAt, h)
+					}
+					r.c.Hit("lstake-repeated-cancel-pays-zero")
+				} else {
+					r.releaseCheck(b, "CancelLiquidityStake", lk, key, send.Address, 0, h)
+					if lk != nil && ackT < lk.matureT {
+						r.fail("release: CancelLiquidityStake of %s succeeded at frontier time %d, the stake is locked until %d", key, ackT, lk.matureT)
+					}
+				}
+			} else if lk != nil && lk.paidAt == 0 && ackT >= lk.matureT && send.Amount.Sign() == 0 {
+				r.fail("liveness: matured CancelLiquidityStake of %s by its owner was refused at frontier time %d (locked until %d)", key, ackT, lk.matureT)
+			} else {
+				switch {
+				case send.Amount.Sign() != 0:
+					r.c.Hit("refusal-liquidity.CancelLiquidityStake-carries-amount")
+				case lk == nil:
+					r.c.Hit("refusal-liquidity.CancelLiquidityStake-not-owner-or-unknown-id")
+				default:
+					r.c.Hit("refusal-liquidity.CancelLiquidityStake-too-early")
+				}
 			}
 		}
 	case types.PillarContract, types.SentinelContract:
@@ -988,6 +1050,40 @@ func (r *contractRun) compareState(h uint64) {
 		c.Emit("K-digest sentinel | %d %s %s", len(sl), amt(tz), amt(tq))
 		dumpQsr(types.SentinelContract)
 	}
+	// ---- liquidity (stake entries only; reward pools are outside the liability sums) ----
+	{
+		st := r.storage(types.LiquidityContract)
+		if info, err := definition.GetLiquidityInfo(st); err == nil && info != nil {
+			var sb strings.Builder
+			for _, tt := range info.TokenTuples {
+				fmt.Fprintf(&sb, " %s %s", tokName(types.ParseZTSPanic(tt.TokenStandard)), amt(tt.MinAmount))
+			}
+			if sb.String() != r.lastTuples {
+				// configuration set by the administrator through a time-challenged call: an input of the model
+				c.Emit("K-liq-tuples%s", sb.String())
+				r.lastTuples = sb.String()
+			}
+		}
+		ll := definition.GetAllLiquidityStakeEntries(st)
+		sort.Slice(ll, func(i, j int) bool {
+			if ll[i].StakeAddress != ll[j].StakeAddress {
+				return string(ll[i].StakeAddress[:]) < string(ll[j].StakeAddress[:])
+			}
+			return string(ll[i].Id[:]) < string(ll[j].Id[:])
+		})
+		r.lstakes = ll
+		total := new(big.Int)
+		for _, e := range ll {
+			if full(types.LiquidityContract) {
+				c.Emit("K-lstake %s %s | %s %s %s %d %d %d", addrName(e.StakeAddress), h8z(e.Id), amt(e.Amount), tokName(e.TokenStandard), amt(e.WeightedAmount), e.StartTime, e.RevokeTime, e.ExpirationTime)
+			}
+			owed[types.LiquidityContract].add(e.TokenStandard, e.Amount)
+			total.Add(total, e.Amount)
+			checkLock(lockKey(types.LiquidityContract, "lstake", addrName(e.StakeAddress), h8z(e.Id)), e.Amount, "liquidity stake")
+		}
+		c.Emit("K-digest liquidity | %d %s", len(ll), amt(total))
+	}
+
 	// a logged deposit must be recorded
 	qk := make([]string, 0, len(r.qsrLog))
 	for k := range r.qsrLog {
@@ -1068,9 +1164,11 @@ var foreignAddrs = []types.Address{
 func contractHistory(c *Ctx, id int) {
 	origGate := verifier.ReceiverMismatchEnforcementHeight
 	origParams := readParams()
+	origAdmin, origMinG, origAdminDelay, origSoftDelay := constants.InitialBridgeAdministrator, constants.MinGuardians, constants.MinAdministratorDelay, constants.MinSoftDelay
 	defer func() {
 		verifier.ReceiverMismatchEnforcementHeight = origGate
 		origParams.install()
+		constants.InitialBridgeAdministrator, constants.MinGuardians, constants.MinAdministratorDelay, constants.MinSoftDelay = origAdmin, origMinG, origAdminDelay, origSoftDelay
 	}()
 	verifier.ReceiverMismatchEnforcementHeight = 0
 	p := origParams
@@ -1221,6 +1319,45 @@ func contractHistory(c *Ctx, id int) {
 	frontierTime := func() int64 {
 		m, _ := n.Chain().GetFrontierMomentumStore().GetFrontierMomentum()
 		return m.Timestamp.Unix()
+	}
+
+	// liquidity staking needs the administrator's configuration (guardians, then the token tuples, both time-challenged);
+	// ZNN and QSR themselves are configured as stakeable tokens, or ZNN alone (then QSR stakes are refused)
+	withLiq := withHtlc && (c.Args["liq"] == "1" || (c.Args["liq"] == "" && id%2 == 0))
+	if withLiq {
+		constants.InitialBridgeAdministrator, constants.MinGuardians, constants.MinAdministratorDelay, constants.MinSoftDelay = g.User5.Address, 4, 20, 10
+		admin := g.User5.Address
+		guardians := []types.Address{g.User1.Address, g.User2.Address, g.User3.Address, g.User4.Address}
+		for k := 0; k < 2; k++ {
+			if call(admin, types.LiquidityContract, types.ZnnTokenStandard, big.NewInt(0), "NominateGuardians", definition.ABILiquidity.PackMethodPanic(definition.NominateGuardiansMethodName, guardians)) == nil {
+				withLiq = false
+				break
+			}
+			if !advance(2 + (1-k)*22) {
+				return
+			}
+		}
+		zts := []string{types.ZnnTokenStandard.String(), types.QsrTokenStandard.String()}
+		pct := []uint32{5000, 5000}
+		mins := []*big.Int{big.NewInt(1000), big.NewInt(2000)}
+		if id%4 == 0 {
+			zts, pct, mins = zts[:1], []uint32{10000}, mins[:1]
+		}
+		for k := 0; k < 2 && withLiq; k++ {
+			if call(admin, types.LiquidityContract, types.ZnnTokenStandard, big.NewInt(0), "SetTokenTuple", definition.ABILiquidity.PackMethodPanic(definition.SetTokenTupleMethodName, zts, pct, pct, mins)) == nil {
+				withLiq = false
+				break
+			}
+			if !advance(2 + (1-k)*12) {
+				return
+			}
+		}
+		if info, err := definition.GetLiquidityInfo(r.storage(types.LiquidityContract)); err != nil || len(info.TokenTuples) != len(zts) {
+			withLiq = false
+			c.Hit("liquidity-setup-failed")
+		} else {
+			c.Hit("history-with-liquidity")
+		}
 	}
 
 	steps := 70 + c.R.Intn(50)
@@ -1699,6 +1836,47 @@ func contractHistory(c *Ctx, id int) {
 		return true
 	}
 
+	genLiquidity := func() {
+		if c.R.Intn(100) < 45 {
+			from := pick(users)
+			tok := types.ZnnTokenStandard
+			if c.R.Intn(2) == 0 {
+				tok = types.QsrTokenStandard
+			}
+			am := qsr(int64(1 + c.R.Intn(30)))
+			dur := p.stakeUnit * int64(1+c.R.Intn(3))
+			switch c.R.Intn(12) {
+			case 0:
+				am = big.NewInt(int64(c.R.Intn(2000))) // around the tuples' minimum amounts
+			case 1:
+				am = big.NewInt(0)
+			case 2:
+				dur = p.stakeUnit * int64(1+c.R.Intn(12))
+			case 3:
+				dur = p.stakeUnit*13 + int64(c.R.Intn(50))
+			case 4:
+				dur = p.stakeUnit - 1
+			}
+			call(from, types.LiquidityContract, tok, am, "LiquidityStake", definition.ABILiquidity.PackMethodPanic(definition.LiquidityStakeMethodName, dur))
+			return
+		}
+		var id types.Hash
+		var from types.Address
+		y := c.R.Intn(10)
+		switch {
+		case y < 6 && len(r.lstakes) > 0:
+			e := r.lstakes[c.R.Intn(len(r.lstakes))]
+			id, from = e.Id, e.StakeAddress
+		case y < 8 && len(r.lstakes) > 0:
+			e := r.lstakes[c.R.Intn(len(r.lstakes))]
+			id, from = e.Id, pick(users)
+		default:
+			id, from = randomHash(), pick(users)
+		}
+		am, tok := withAmount()
+		call(from, types.LiquidityContract, tok, am, "CancelLiquidityStake", definition.ABILiquidity.PackMethodPanic(definition.CancelLiquidityStakeMethodName, id))
+	}
+
 	// run to the edge of a lock — just before / exactly at / just after maturity — then the entitled party withdraws
 	genEdge := func() bool {
 		var open []*lockRec
@@ -1778,6 +1956,13 @@ func contractHistory(c *Ctx, id int) {
 					c.Hit(fmt.Sprintf("edge-stake-delta%+d", delta))
 				}
 			}
+		case "lstake":
+			for _, f := range r.lstakes {
+				if h8z(f.Id) == last && f.StakeAddress == l.entitled {
+					call(l.entitled, types.LiquidityContract, types.ZnnTokenStandard, zero, "CancelLiquidityStake", definition.ABILiquidity.PackMethodPanic(definition.CancelLiquidityStakeMethodName, f.Id))
+					c.Hit(fmt.Sprintf("edge-lstake-delta%+d", delta))
+				}
+			}
 		case "pillar":
 			call(l.entitled, types.PillarContract, types.ZnnTokenStandard, zero, "Revoke", definition.ABIPillars.PackMethodPanic(definition.RevokeMethodName, last))
 			c.Hit(fmt.Sprintf("edge-pillar-window-delta%+d", delta))
@@ -1814,9 +1999,17 @@ func contractHistory(c *Ctx, id int) {
 		}
 		switch {
 		case x < 14:
-			genPlasma()
+			if withLiq && c.R.Intn(2) == 0 {
+				genLiquidity()
+			} else {
+				genPlasma()
+			}
 		case x < 28:
-			genStake()
+			if withLiq && c.R.Intn(2) == 0 {
+				genLiquidity()
+			} else {
+				genStake()
+			}
 		case x < 46:
 			if withHtlc {
 				genHtlc()
@@ -1846,6 +2039,39 @@ func contractHistory(c *Ctx, id int) {
 	// drain: every confirmed call is answered
 	if !r.failed {
 		advance(3)
+	}
+	// known finding F14: ZNN configured as a stakeable token is not kept apart from the contract's reward funds —
+	// the spork address may burn (BurnZnn) or give away (Fund) the contract's whole ZNN balance, staked principal included
+	if !r.failed && withLiq && (c.Args["burn"] == "1" || (c.Args["burn"] == "" && id%4 == 2)) {
+		staked := new(big.Int)
+		var victim *definition.LiquidityStakeEntry
+		for _, e := range r.lstakes {
+			if e.TokenStandard == types.ZnnTokenStandard && e.Amount.Sign() > 0 {
+				staked.Add(staked, e.Amount)
+				victim = e
+			}
+		}
+		if victim == nil {
+			if call(g.User1.Address, types.LiquidityContract, types.ZnnTokenStandard, qsr(7), "LiquidityStake", definition.ABILiquidity.PackMethodPanic(definition.LiquidityStakeMethodName, p.stakeUnit)) != nil && advance(3) {
+				for _, e := range r.lstakes {
+					if e.TokenStandard == types.ZnnTokenStandard && e.Amount.Sign() > 0 {
+						staked.Add(staked, e.Amount)
+						victim = e
+					}
+				}
+			}
+		}
+		if victim != nil && !r.failed {
+			bal := balanceOf(types.LiquidityContract, types.ZnnTokenStandard)
+			if call(g.Spork.Address, types.LiquidityContract, types.ZnnTokenStandard, zero, "BurnZnn", definition.ABILiquidity.PackMethodPanic(definition.BurnZnnMethodName, bal)) != nil {
+				r.burned = true
+				c.Hit("scenario-spork-burns-staked-znn")
+				advance(3)
+				if r.failed { // the backing monitor fired; the history ends here
+					return
+				}
+			}
+		}
 	}
 	if !r.failed {
 		c.Hit("history-complete")
